@@ -151,15 +151,25 @@ func (eng *Engine) checkProperty(prop, tier string) int {
 		return nil
 	}
 	// presence guard
+	// (the "@site" suffix that tells the back edges of one loop apart is ignored here: adding or removing a call or a
+	// `continue` renumbers the sites without dropping any clause)
+	baseName := func(n string) string {
+		if i := strings.Index(n, "@"); i >= 0 {
+			return n[:i]
+		}
+		return n
+	}
 	present := map[string]bool{}
 	for _, o := range all {
-		present[o.Name] = true
+		present[baseName(o.Name)] = true
 	}
 	var missing []string
+	seenMissing := map[string]bool{}
 	if exp := loadExpected(verif); exp != nil && prop != "" {
 		for _, n := range exp[prop] {
-			if !present[n] {
-				missing = append(missing, n)
+			if b := baseName(n); !present[b] && !seenMissing[b] {
+				seenMissing[b] = true
+				missing = append(missing, b)
 			}
 		}
 	}
